@@ -5,7 +5,7 @@ package vsync
 import (
 	"sync"
 
-	"github.com/whoisnian/glb/zzverif/vsched"
+	"verif/engine/shim/vsched"
 )
 
 type Locker = sync.Locker
